@@ -24,6 +24,15 @@ ENGINES = [
 
 # property -> registration.  Only properties whose check exists and is silent on the unchanged tree.
 CHECKS = {
+    "C01": dict(engine="simnet", category="exploration", design_ref="DESIGN.md §4 C01",
+                technique="runtime monitoring in a deterministic simulator: exactly-once callback monitor + structural "
+                          "walk of the query indexes at quiescent points, under ASan+UBSan",
+                text="Held on the simulated histories explored (tens of thousands quick, millions thorough): every request "
+                     "token over all ten entry points got exactly one callback, none after ares_destroy, cancel and destroy "
+                     "completed everything outstanding, the four query indexes agreed at every quiescent point, and "
+                     "ASan/UBSan stayed silent, with callbacks starting requests and cancelling, hostile servers, socket "
+                     "faults and seeded reordering of replies vs. timers. Exploration: histories not generated are not covered.",
+                note="Trusts the simulator's socket/server model and gcc ASan/UBSan; single-threaded (threads: C11)."),
     "C19": dict(engine="dsmodel", category="exploration", design_ref="DESIGN.md §4 C19",
                 technique="model-based runtime monitoring: seeded operation sequences on the real containers, "
                           "step-wise comparison with reference models, under ASan+UBSan",
